@@ -670,6 +670,13 @@ void Node::process_pending_fetches() {
             if (now >= state.next_attempt) {
                 note_dispatch_end(state);
                 state.in_flight = false;
+                // An unanswered request has used up an attempt just like a failed send: once the limit is reached
+                // the fetch is given up instead of being requested again.
+                const auto attempt_limit = static_cast<std::size_t>(config_.fetch_retry_attempt_limit);
+                if (attempt_limit > 0 && state.attempts >= attempt_limit) {
+                    completed.push_back(key);
+                    continue;
+                }
             } else {
                 ++inflight_count;
                 continue;
